@@ -2,6 +2,7 @@
 From mathcomp Require Import all_ssreflect all_algebra.
 From SsrMultinomials Require Import mpoly.
 From NP Require Import Base Poly Deriv Abs Align Arith DerivP StackP HessP.
+From NP Require Import GenSource BridgeSrcC06.
 Set Implicit Arguments. Unset Strict Implicit. Unset Printing Implicit Defensive.
 Import GRing.Theory.
 Local Open Scope ring_scope.
@@ -66,6 +67,11 @@ Theorem C06_hessian o p (vs : seq 'I_n) r :
 Proof. exact: hessian_spec. Qed.
 End C06.
 
+(* the /repo functions this model was written from are still, statement by statement, the modelled ones *)
+Theorem C06_sources_are_the_modelled_ones :
+  all (all id) [:: gen_src_derivative; gen_src_gradient; gen_src_hessian] /\ [seq size f | f <- [:: gen_src_derivative; gen_src_gradient; gen_src_hessian]] = [:: 3; 3; 4]%N.
+Proof. exact: bridge_src_C06. Qed.
+
 Print Assumptions C06_derivative.
 Print Assumptions C06_unknown_variable.
 Print Assumptions C06_mixed_partials_commute.
@@ -73,3 +79,4 @@ Print Assumptions C06_linear.
 Print Assumptions C06_product_rule.
 Print Assumptions C06_gradient.
 Print Assumptions C06_hessian.
+Print Assumptions C06_sources_are_the_modelled_ones.
